@@ -4,13 +4,17 @@ from sfv import STDLIB_AXIOMS_ALLOWED
 
 THEOREMS = {
     "C01": [],
+    "C03": ["C03_record", "C03_decodes_conformant"],
     "C18": ["C18_size", "C18_record_len", "C18_record_bytes"],
     "C19": ["C19_decode_iff", "C19_image", "C19_injective", "C19_table", "C19_predicates"],
 }
 
 # theorem -> set of allowed standard-library axioms (default: none, i.e. the
 # theorem must be closed under the global context)
-AXIOMS = {}
+# theorems whose statement mentions the orientation test (Flocq binary64 arithmetic) inherit the four
+# classical-reals axioms of the standard library through Flocq's definitions
+FLOCQ = set(STDLIB_AXIOMS_ALLOWED)
+AXIOMS = {"C03_record": FLOCQ, "C03_decodes_conformant": FLOCQ}
 
 
 def allowed_axioms(theorem):
